@@ -509,12 +509,12 @@ def gen_bookmark_case(rng, kind, tier, deep_n=None, wide=None, ntree=None):
     refused = False
     if ntree is not None:
         # a name tree in the catalog (objects numbered above max_id, which is raised: build_outline numbers from max_id + 1)
-        ents, extra, top = name_tree(rng, ntree, pages, max_id + 1, titles, 1 + 2 * len(ops))
-        cur = dict(objects)[cat]
-        assert cur.endswith(')')
+        first_free = max([max_id] + [i for (i, _), _ in objects]) + 1
+        ents, extra, top = name_tree(rng, ntree, pages, first_free, titles, 1 + 2 * len(ops))
         objects = [(i, o) if i != cat else (i, o[:-1] + ' ' + ' '.join(L(xb(k), v) for k, v in ents) + ')') for i, o in objects]
         objects += extra
-        max_id = max(max_id, top)
+        if kind != 'stale':
+            max_id = max(max_id, top)
         refused = ntree in NT_REFUSED
     rng.shuffle(objects)
     doc = DOC('1.5', b'', trailer + [('Size', I(max_id + 1))] if rng.random() < 0.5 else trailer, objects, max_id)
